@@ -30,6 +30,13 @@ def _check_zone_pytz(args):
     viol, stats = [], dict(runs=0, items=0, transitions_required=0, transitions_too_close_not_claimed=0, samples_required=0)
     iv = interval * 3600
     for (y0, y1) in ranges:
+        if (y0, y1) == tuple(ranges[0]):
+            # state kept between generator objects in one process (module-level caches and the like) must not leak: an earlier
+            # generator with the opposite DST-detection setting runs over the same zone and range first, its output is discarded
+            try:
+                TestDataGenerator(y0, y1, interval, not detect_dst)._create_test_items_for_zone(name)
+            except Exception:
+                pass
         g = TestDataGenerator(y0, y1, interval, detect_dst)
         try:
             items = g._create_test_items_for_zone(name)
@@ -97,6 +104,13 @@ def _check_zone_dateutil(args):
     viol, stats = [], dict(runs=0, items=0, transitions_required=0, transitions_too_close_not_claimed=0, samples_required=0)
     iv = interval * 3600
     for (y0, y1) in ranges:
+        if (y0, y1) == tuple(ranges[0]):
+            # state kept between generator objects in one process (module-level caches and the like) must not leak: an earlier
+            # generator with the opposite DST-detection setting runs over the same zone and range first, its output is discarded
+            try:
+                TestDataGenerator(y0, y1, interval, not detect_dst)._create_test_items_for_zone(name)
+            except Exception:
+                pass
         g = TestDataGenerator(y0, y1, interval, detect_dst)
         try:
             items = g._create_test_items_for_zone(name)
